@@ -49,17 +49,28 @@ WellFormed(f) == /\ \A i \in 1..Len(f) : (IsCmt(f[i]) /\ f[i].pos = "trail") => 
                  /\ (Len(f) > 0 => f[1] # Blank /\ f[Len(f)] # Blank)
 
 (* ------------------------------------------------------------------ the model of the writers *)
-(* the kind a comment is written in *)
-KindOut(c, o) == IF c.kind = "cpp" THEN (IF o.cppToC THEN "c" ELSE "cpp")
-                 ELSE IF c.kind = "c" /\ Single(c) /\ c.pos = "trail" /\ o.trailCToCpp THEN "cpp"
-                 ELSE "c"
+(* cmt_c_group is asked first: two single-line block comments directly below each other          *)
+JoinsC(f, i) == /\ i >= 1 /\ i < Len(f) /\ IsCmt(f[i]) /\ IsCmt(f[i + 1])
+                /\ f[i].kind = "c" /\ f[i + 1].kind = "c" /\ Single(f[i]) /\ Single(f[i + 1])
+                /\ f[i].pos = "own" /\ f[i + 1].pos = "own"
+InCGroup(f, i, o) == o.cGroup /\ (JoinsC(f, i) \/ JoinsC(f, i - 1))
+(* the writer a comment goes to: a single-line block comment that is the last thing on its line    *)
+(* (on a line of its own or behind code) and not part of a group is rewritten as a line comment     *)
+(* by cmt_trailing_single_line_c_to_cpp and handed to the line-comment writer                       *)
+Writer(f, i, o) == IF f[i].kind = "cpp" THEN "cpp"
+                   ELSE IF f[i].kind = "c" /\ Single(f[i]) /\ o.trailCToCpp /\ ~InCGroup(f, i, o) THEN "cpp"
+                   ELSE "c"
+(* the kind it is written in: the line-comment writer turns everything into block comments under   *)
+(* cmt_cpp_to_c - also what the rewrite above has just produced                                     *)
+KindOut(f, i, o) == IF Writer(f, i, o) = "cpp" THEN (IF o.cppToC THEN "c" ELSE "cpp") ELSE "c"
 (* may item i + 1 be written into the comment that item i started?  (can_combine_comment():        *)
-(* directly below, same kind, same column; the writers ask for single-line comments)                *)
+(* directly below, same chunk type, same column).  A rewritten block comment is a line comment     *)
+(* for this purpose, one that is still to be rewritten is not.                                      *)
 Joins(f, i, o) ==
-   /\ i < Len(f) /\ IsCmt(f[i]) /\ IsCmt(f[i + 1])
+   /\ i >= 1 /\ i < Len(f) /\ IsCmt(f[i]) /\ IsCmt(f[i + 1])
    /\ f[i + 1].pos = "own" /\ f[i].pos = "own"
-   /\ \/ (f[i].kind = "cpp" /\ f[i + 1].kind = "cpp" /\ o.cppToC /\ o.cppGroup)
-      \/ (f[i].kind = "c" /\ f[i + 1].kind = "c" /\ Single(f[i]) /\ Single(f[i + 1]) /\ o.cGroup)
+   /\ \/ (Writer(f, i, o) = "cpp" /\ f[i + 1].kind = "cpp" /\ o.cppToC /\ o.cppGroup)
+      \/ (o.cGroup /\ JoinsC(f, i))
 RECURSIVE OutFrom(_, _, _, _)
 (* acc = output comments so far; the last one is open for joining iff the previous item joined *)
 OutFrom(f, i, o, acc) ==
@@ -67,7 +78,7 @@ OutFrom(f, i, o, acc) ==
    ELSE IF ~IsCmt(f[i]) THEN OutFrom(f, i + 1, o, acc)
    ELSE IF i > 1 /\ Joins(f, i - 1, o)
         THEN OutFrom(f, i + 1, o, [acc EXCEPT ![Len(acc)].src = Append(@, i)])
-        ELSE OutFrom(f, i + 1, o, Append(acc, [kind |-> KindOut(f[i], o), src |-> <<i>>]))
+        ELSE OutFrom(f, i + 1, o, Append(acc, [kind |-> KindOut(f, i, o), src |-> <<i>>]))
 Out(f, o) == OutFrom(f, 1, o, <<>>)
 
 (* ------------------------------------------------------------------ what must hold of any Out *)
